@@ -813,8 +813,11 @@ impl StrideRounding for Bitvector {
         let diff = interval.start.try_to_i128().unwrap() - self.try_to_i128().unwrap();
         let diff = diff % interval.stride as i128;
         let diff = (diff + interval.stride as i128) % interval.stride as i128;
-        let diff = Bitvector::from_u64(diff as u64).into_resize_unsigned(interval.bytesize());
-        self.signed_add_overflow_checked(&diff)
+        // `diff` may be too large for a signed value of the interval's size, so compute the result as i128.
+        let rounded = self.try_to_i128().unwrap() + diff;
+        let result = Bitvector::from_i64(i64::try_from(rounded).ok()?)
+            .into_resize_signed(interval.bytesize());
+        (result.try_to_i128().unwrap() == rounded).then_some(result)
     }
 
     /// Round `self` down to the nearest value that adheres to the stride of `interval`.
@@ -826,8 +829,11 @@ impl StrideRounding for Bitvector {
         let diff = self.try_to_i128().unwrap() - interval.end.try_to_i128().unwrap();
         let diff = diff % interval.stride as i128;
         let diff = (diff + interval.stride as i128) % interval.stride as i128;
-        let diff = Bitvector::from_u64(diff as u64).into_resize_unsigned(interval.bytesize());
-        self.signed_sub_overflow_checked(&diff)
+        // `diff` may be too large for a signed value of the interval's size, so compute the result as i128.
+        let rounded = self.try_to_i128().unwrap() - diff;
+        let result = Bitvector::from_i64(i64::try_from(rounded).ok()?)
+            .into_resize_signed(interval.bytesize());
+        (result.try_to_i128().unwrap() == rounded).then_some(result)
     }
 }
 
